@@ -9,6 +9,7 @@ mod common;
 mod dispatch;
 mod validators;
 mod layouts;
+mod tables;
 
 use std::path::PathBuf;
 
@@ -38,6 +39,7 @@ fn main() {
     run("dispatch", &dispatch::run);
     run("validators", &validators::run);
     run("layouts", &layouts::run);
+    run("tables", &tables::run);
     if failed {
         std::process::exit(2);
     }
